@@ -14,6 +14,8 @@ for ln in open(f"/verif/.run/census-{prop}.txt"):
     except Exception:
         continue
     key = (r.get("mode"), r.get("exc", ""), r.get("frame", ""), r.get("cls"), tuple(r.get("tags", [])), r.get("known"))
+    if len(sys.argv) > 4:
+        key = (r.get("oracle"),) + key
     g = groups[key]
     g["n"] += int(n)
     g["oracles"].add(r.get("oracle"))
